@@ -172,6 +172,8 @@ def instrument_tickers(ctx):
                   real=loop.now_ns(), step=loop.step)
         try:
             await o_call(self, time, update_components)
+        except asyncio.CancelledError:
+            raise
         except BaseException as e:
             trace.log("t-error", tid=self._vid, where="call", error=f"{type(e).__name__}:{e}")
             raise
@@ -182,6 +184,8 @@ def instrument_tickers(ctx):
                   changes=dict(output.changes), skip=type(output).__name__ == "Skip")
         try:
             await o_prop(self, output)
+        except asyncio.CancelledError:
+            raise
         except BaseException as e:
             trace.log("t-error", tid=self._vid, where="propagate", src=output.source,
                       error=f"{type(e).__name__}:{e}")
